@@ -24,9 +24,9 @@ import vlib
 WILD = {"ArgUseAfterFree", "KeywordFreesLit", "UndefFreesHeldBody"}
 SECTION8 = ["PendingReuse", "PaintBody", "MacroequalSpace"]
 
-QUICK = dict(ref=["peek", "t0", "redef", "redef2", "qp", "qh", "q3s", "q5s"], dev=["sec8", "t0", "redef", "redef2", "qp", "qh", "q1s", "q2s", "q3s", "q4s", "q5s"],
+QUICK = dict(ref=["peek", "t0", "redef", "redef2", "qp", "qh", "qn", "q3s", "q5s"], dev=["sec8", "t0", "redef", "redef2", "qp", "qh", "qn", "q1s", "q2s", "q3s", "q4s", "q5s"],
              simE=(6, 150), simC=(4, 120), audit=4000)
-THOROUGH = dict(ref=["peek2", "t0", "redef", "redef2", "qp", "qh", "q1", "q2", "q3", "q4", "q5s"], dev=["sec8", "t0", "redef", "redef2", "qp", "qh", "q1", "q2", "q3", "q4", "q5s"],
+THOROUGH = dict(ref=["peek2", "t0", "redef", "redef2", "qp", "qh", "qnx", "q1", "q2", "q3", "q4", "q5s"], dev=["sec8", "t0", "redef", "redef2", "qp", "qh", "qnx", "q1", "q2", "q3", "q4", "q5s"],
                 simE=(12, 600), simC=(8, 400), audit=30000)
 
 
@@ -42,6 +42,8 @@ def render(prog):
             out.append(rtoks(l["b"]))
         elif l["k"] == "undef":
             out.append("#undef " + l["n"])
+        elif l["k"] == "nop":      # '#' + tokens, with the text the spec puts in front of '#' and behind the last token
+            out.append(l["ps"][0] + "#" + rtoks(l["b"]) + l["ps"][1])
         else:
             ps = ",".join("..." if p == "__VA_ARGS__" else p for p in l["ps"])
             out.append("#define " + l["n"] + ("(" + ps + ")" if l["fn"] else "") + rtoks(l["b"]))
@@ -316,7 +318,8 @@ def audit_one(objdir, c):
 
 
 def audit(ctx, objs, cases, limit):
-    det = [c for c in cases if c["tag"] != "excl" and c["mode"] == "E"]
+    # forms the spec marks as extensions (gcc line markers `# 9 "g.c"`) are rejected by -pedantic-errors: not auditable
+    det = [c for c in cases if c["tag"] != "excl" and c["mode"] == "E" and not any(l["k"] == "nop" and l["n"] == "ext" for l in c["prog"])]
     if len(det) > limit:
         det = ctx.rng.sample(det, limit)
     res = vlib.pmap(lambda c: audit_one(objs["hooks"], c), det, workers=16)
@@ -366,6 +369,10 @@ def run_hist(ctx):
     r = _tlc(ctx, "Macro", "MC_Macro_qp_textpaste.cfg", workers=2, timeout=1200)
     if r.rc != 12:
         raise vlib.MachineryError("deviation TextPaste does not violate Inv_Text on space qp (rc=%s): the disjunct is vacuous" % r.rc)
+    # design record for the directive-local scanner state: a leaked PPNEWLINE must be a model-level difference
+    r = _tlc(ctx, "Macro", "MC_Macro_qn_leak.cfg", workers=2, timeout=1200)
+    if r.rc != 12:
+        raise vlib.MachineryError("deviation NullDirLeak does not violate Inv_Newline on space qn (rc=%s): ppflags is not modelled" % r.rc)
     r = _tlc(ctx, "Macro", "MC_Macro_sec8_hist.cfg", workers=2, timeout=1200)
     if not r.ok:
         raise vlib.MachineryError("sec8_hist failed rc=%s:\n%s" % (r.rc, r.out[-3000:]))
